@@ -19,6 +19,7 @@ Classes and utilities for addresses of various types.
 from __future__ import print_function
 import struct
 import socket
+import re
 
 _eth_oui_to_name = {} # OUI (3 bytes) -> name
 
@@ -485,14 +486,21 @@ class IPAddr6 (_AddrBase):
           # We don't implement this, which is probably fine because they are
           # deprecated.
           raise RuntimeError('IPv4-compatible representation unimplemented')
-        if ':' in ip4part:
+        if not re.fullmatch(r'\d{1,3}(\.\d{1,3}){3}', ip4part):
           raise RuntimeError('Bad address format')
         addr += ':0:0'
 
       segs = addr.split(':')
-      if addr.count('::') > 1:
+      if addr.count('::') > 1 or ':::' in addr:
         raise RuntimeError("Bad address format " + str(addr))
       if len(segs) < 3 or len(segs) > 8:
+        raise RuntimeError("Bad address format " + str(addr))
+      if '::' not in addr and len(segs) != 8:
+        # Without a "::", all eight groups must be present
+        raise RuntimeError("Bad address format " + str(addr))
+      if ((segs[0] == '' and segs[1] != '')
+          or (segs[-1] == '' and segs[-2] != '')):
+        # Lone leading or trailing colon
         raise RuntimeError("Bad address format " + str(addr))
 
       # Parse the two "sides" of the address (left and right of the optional
@@ -506,6 +514,8 @@ class IPAddr6 (_AddrBase):
             #  raise RuntimeError("Bad address format " + str(addr))
           side = 1
           continue
+        if not re.fullmatch(r'[0-9a-fA-F]{1,4}', s):
+          raise RuntimeError("Bad address format " + str(addr))
         s = int(s,16)
         if s < 0 or s > 0xffff:
           # Each chunk must be at most 16 bits!
